@@ -3,7 +3,7 @@ import vlib
 from props import solverstream as ss, tracecheck as tc, antie
 
 THEOREMS = ["C05_oracle_correct", "C05_run_trail_legal", "C05_supported", "C05_trace_supported",
-            "C05_propagate_sound", "C05_checked_propagate_sound", "C05_grows_justified", "C05_start_watching_keeps_invariant", "C05_solver_model_invariant", "C05_solver_model_propagate_sound", "C05_solver_model_propagate_keeps_levels", "C05_solver_model_learn_keeps_levels", "C05_propagate_complete", "C05_complete_no_watched_falsified", "C05_checked_propagate_complete", "C05_inv2_kept_outside_propagate"]
+            "C05_propagate_sound", "C05_checked_propagate_sound", "C05_grows_justified", "C05_start_watching_keeps_invariant", "C05_solver_model_invariant", "C05_solver_model_propagate_sound", "C05_solver_model_propagate_keeps_levels", "C05_solver_model_learn_keeps_levels", "C05_propagate_complete", "C05_complete_no_watched_falsified", "C05_checked_propagate_complete", "C05_inv2_kept_outside_propagate", "C05_propagate_takes_unit_steps"]
 CHECKER = ("coqc Props/C05.v + Print Assumptions; harness solve_cases: (a) hook logs -> extracted check_sat_log (legal run, "
            "theorem C05_trace_supported), (b) extracted o_supported on every solution, (c) hook logs -> extracted check_propagates: "
            "every call of Solver::propagate must make exactly the assignments (literal, level, reason clause, in order) of the "
